@@ -1565,6 +1565,31 @@ impl Builder {
         )
     }
 
+    /// Verification hook: same as the test-only `set_page_size`
+    #[cfg(redb_verif)]
+    pub fn verif_set_page_size(&mut self, size: usize) -> &mut Self {
+        assert!(size.is_power_of_two());
+        self.page_size = core::cmp::max(size, 512);
+        self
+    }
+
+    /// Verification hook: same as the test-only `set_region_size`
+    #[cfg(redb_verif)]
+    pub fn verif_set_region_size(&mut self, size: u64) -> &mut Self {
+        assert!(size.is_power_of_two());
+        self.region_size = Some(size);
+        self
+    }
+
+    /// Verification hook: a [`ReadOnlyDatabase`] over a caller-supplied backend
+    #[cfg(all(redb_verif, not(redb_no_std)))]
+    pub fn verif_open_read_only_with_backend(
+        &self,
+        backend: impl StorageBackend,
+    ) -> Result<ReadOnlyDatabase, DatabaseError> {
+        ReadOnlyDatabase::new(Box::new(backend), self.page_size, None, self.cache_size)
+    }
+
     /// Open an existing or create a new database with the given backend.
     pub fn create_with_backend(
         &self,
